@@ -105,8 +105,42 @@ func draw(t *rapid.T) *pbt.Case {
 	return c
 }
 
+// modelCode: the code attached by the outermost WrapWithGrpcCode layer
+// of the chain (Unknown otherwise), from the case description.
+func modelCode(s *gen.Spec) codes.Code {
+	for _, l := range gen.Chain(s) {
+		if l.GRPC >= 0 {
+			return codes.Code(l.GRPC)
+		}
+	}
+	return codes.Unknown
+}
+
 func check(c *pbt.Case, r *pbt.R) {
-	e0 := gen.Build(c.Spec)
+	built := gen.BuildAll(c.Spec)
+	e0 := built.Root
+	// The errors the handler's error was built from keep their own
+	// code: a handler that later returns one of them (a package-level
+	// error that another handler has wrapped with another code) still
+	// delivers that error's code.
+	for n := c.Spec.C; n != nil; n = n.C {
+		sub := built.Of[n]
+		if _, isStatus := sub.(interface{ GRPCStatus() *grpcstatus.Status }); isStatus {
+			continue
+		}
+		if lc, want := extgrpc.GetGrpcCode(sub), modelCode(n); lc != want {
+			r.Failf("wrapping an error changes the gRPC code of the wrapped error", "GetGrpcCode(inner %s)=%v want %v\n%s", n.K, lc, want, c.Spec)
+		}
+	}
+	if n := c.Spec.C; n != nil && (n.K == "grpccode" || c.Spec.K == "grpccode") {
+		if _, raw2, _ := call(built.Of[n]); raw2 != nil {
+			if st2, ok := grpcstatus.FromError(raw2); ok && st2.Code() != modelCode(n) {
+				if _, isStatus := built.Of[n].(interface{ GRPCStatus() *grpcstatus.Status }); !isStatus {
+					r.Failf("wrapping an error changes the gRPC code of the wrapped error", "a call returning the wrapped error delivers %v, want %v\n%s", st2.Code(), modelCode(n), c.Spec)
+				}
+			}
+		}
+	}
 	got, raw, _ := call(e0)
 	if got == nil || raw == nil {
 		r.Failf("the caller receives no error", "got=%v raw=%v\n%s", got, raw, c.Spec)
@@ -148,13 +182,7 @@ func check(c *pbt.Case, r *pbt.R) {
 	}
 	// The attached code, from the case description (not from the
 	// library): the outermost WrapWithGrpcCode layer of the visible chain.
-	wantCode := codes.Unknown
-	for _, l := range gen.Chain(c.Spec) {
-		if l.GRPC >= 0 {
-			wantCode = codes.Code(l.GRPC)
-			break
-		}
-	}
+	wantCode := modelCode(c.Spec)
 	if lc := extgrpc.GetGrpcCode(e0); lc != wantCode {
 		r.Failf("GetGrpcCode is not the code attached by the outermost WrapWithGrpcCode", "got %v want %v\n%s", lc, wantCode, c.Spec)
 	}
